@@ -21,6 +21,7 @@ EXPLANATION = (
     "method call on self, its fields, elements obtained by iterating them, or aliases of those (stream rewinds excepted). "
     "(INPUT) the caller's stream parameter of each extractor, followed through every callee parameter it is passed to, "
     "is only read / sought / handed to read-only openers; never written, truncated or closed."
+    " (HOST) no value looked up in a host-wide database (module-level mimetypes functions, locale, platform, working directory, environment) is used for anything but logging; mimetypes.MimeTypes() without arguments is the private, built-in table. The router's MIME fallback is an open known finding (pinned by test_is_supported)."
 )
 NOT_DECIDED = ["determinism of third-party parsers and of their object reprs (e.g. values defaulted to the wall clock inside openpyxl, memory addresses in pypdf reprs) — outside the analysed source",
                "Path.resolve() host dependence of file metadata for real paths (archive members are labelled lexically, C09-LABEL)"]
